@@ -58,6 +58,15 @@ def _base_bundles():
                     dict(type=1, num=1, flags=0, crc_type=pay_crc, data=bytes(range(12)), crc=None),
                 ]
                 out.append(dict(primary=pri, blocks=blocks))
+    # administrative record bundles (status reports): the record is decoded and re-encoded by the implementation, which must not
+    # launder a damaged payload into a valid one
+    for (pri_crc, pay_crc, dest) in ((1, 1, 'dtn://me/'), (2, 2, 'dtn://other/svc'), (0, 2, 'dtn://me/'), (1, 2, 'dtn://other/svc')):
+        idx += 1
+        record = bpv7.encode_status_report([(True, 5), (False, None), (True, 7), (False, None)], 3, 'dtn://subj/x', 77, 3)
+        pri = dict(version=7, flags=bpv7.FLAG_ADMIN, crc_type=pri_crc, dest=dest, src='dtn://src/a', report_to='dtn:none',
+                   create_time=2000 + idx, seqno=idx, lifetime=100000, frag_offset=None, total_adu_len=None, crc=None)
+        out.append(dict(primary=pri, blocks=[dict(type=10, num=2, flags=1, crc_type=pay_crc, data=bytes.fromhex('82181e01'), crc=None),
+                                             dict(type=1, num=1, flags=0, crc_type=pay_crc, data=record, crc=None)]))
     return out
 
 
